@@ -27,7 +27,7 @@ DESIGN_REF = "§5 C04"
 def run(ctx, driver):
     rng = ctx.rng
     rec = propbase.Rec(ctx, ID)
-    n = 3000 if ctx.quick else 40000
+    n = 3000 if ctx.quick else 200000
     cases = [poolb1.gen_case(rng) for _ in range(n)]
     answers = driver.run([poolb1.model_line(c) for c in cases]) if driver else [None] * n
     for c, ans in zip(cases, answers):
@@ -50,10 +50,10 @@ def run(ctx, driver):
         if len(rec.samples) < 3 and impl["created"] and impl["closing"]:
             rec.samples.append({"case": c, "impl": payload["impl"], "model": ans})
     import concur
-    concur.explore(ctx, rec, ID, {"p_fault": 0.25, "p_cancel": 0.1, "retries": 2, "max_connections": 1}, 60, 800, ["C04:"])
-    concur.explore(ctx, rec, ID, {"p_fault": 0.1, "p_cancel": 0.1, "gate_close": True, "p_conn_close": 0.3}, 60, 800, ["C04:"])
+    concur.explore(ctx, rec, ID, {"p_fault": 0.25, "p_cancel": 0.1, "retries": 2, "max_connections": 1}, 60, 6000, ["C04:"])
+    concur.explore(ctx, rec, ID, {"p_fault": 0.1, "p_cancel": 0.1, "gate_close": True, "p_conn_close": 0.3}, 60, 6000, ["C04:"])
     concur.explore(ctx, rec, ID, {"p_fault": 0.1, "p_cancel": 0.05, "http2": True, "max_connections": 1, "p_conn_close": 0.0, "callers": 4},
-                   30, 400, ["C04:"])
+                   30, 3000, ["C04:"])
     return rec.finish("C04/B1 pool pass + concurrent schedules",
                       "random pools: max 1-4, keep-alive 0-3/None, 0..max stub connections with status bits from 9 classes (idle, active, "
                       "available, closed, expired, odd combinations), 0-4 requests over 4 origins, some pre-assigned; one pass each on the real "
